@@ -8,8 +8,9 @@ from vlib.core import Case, cases_text, split_cases, split_res
 PROP = "C02"
 SPEC_MODE = "spec"
 KEEP_PREFIX = 2                       # `clock`, `load`
-SIZES = {"quick": 900, "thorough": 30000}
+SIZES = {"quick": 4500, "thorough": 120000}
 BATCH = 1500
+EXTRA_MODULES = ("Sentinel.Lemmas.FlowReject", "Sentinel.Lemmas.FlowRejectConc")
 KEY = "assoc-standalone-own-traffic"
 RULE = ("per case: one flow.LoadRules of 1-5 Direct/Reject rules over resources 1..4 (thresholds incl. 0, fractional, subnormal, "
         "NaN, +Inf, negative=invalid; StatIntervalInMs so that default view, derived view, independent window (n buckets of 500, or "
